@@ -130,16 +130,23 @@ where
             .cloned();
 
         match (left, right) {
-            (Some(l), Some(r)) if l.high + T::one() == value && value + T::one() == r.low => {
+            // `l.high < value` / `value < r.low`: the neighbours are real neighbours (the value is not inside
+            // a free run already), and the additions below cannot overflow at the upper end of the type
+            (Some(l), Some(r))
+                if l.high < value
+                    && value < r.low
+                    && l.high + T::one() == value
+                    && value + T::one() == r.low =>
+            {
                 self.pool.remove(&l);
                 self.pool.remove(&r);
                 self.pool.insert(ValueInterval::new_range(l.low, r.high));
             }
-            (Some(l), _) if l.high + T::one() == value => {
+            (Some(l), _) if l.high < value && l.high + T::one() == value => {
                 self.pool.remove(&l);
                 self.pool.insert(ValueInterval::new_range(l.low, value));
             }
-            (_, Some(r)) if value + T::one() == r.low => {
+            (_, Some(r)) if value < r.low && value + T::one() == r.low => {
                 self.pool.remove(&r);
                 self.pool.insert(ValueInterval::new_range(value, r.high));
             }
